@@ -1580,6 +1580,14 @@ fn is_expired_entry_ao(
             if ts < *va {
                 return true;
             }
+            // An entry is invalidated when it was last modified before
+            // `invalidate_all` was called, even if it has been read since (at the
+            // very same clock reading).
+            if let Some(lm) = entry.last_modified() {
+                if lm < *va {
+                    return true;
+                }
+            }
         }
         if let Some(tti) = time_to_idle {
             let checked_add = ts.checked_add(*tti);
